@@ -758,6 +758,12 @@ func (fr *FuncRun) contentHeaps(t types.Type) []string {
 
 func (fr *FuncRun) invariantsOf(f *Frame, head *ssa.BasicBlock) []*Clause {
 	if f.contract == nil {
+		// an inlined callee: the function under verification may carry invariants for its loops
+		if !f.top && fr.topFrame != nil && fr.topFrame.contract != nil && fr.topFrame.contract.LoopsIn != nil {
+			if m := fr.topFrame.contract.LoopsIn[funcShortName(f.fn)]; m != nil {
+				return m[fr.loopOrdinal(f, head)]
+			}
+		}
 		return nil
 	}
 	return f.contract.Loops[fr.loopOrdinal(f, head)]
@@ -800,7 +806,11 @@ func (fr *FuncRun) checkInvariants(f *Frame, head *ssa.BasicBlock, st *State, ki
 	for i, inv := range invs {
 		ctx := fr.frameCtx(f, st)
 		t := fr.evalClause(ctx, inv)
-		fr.assertOb(st, kind, fmt.Sprintf("loop%d:%d", n, i+1), t, head.Instrs[0].Pos(), inv.Text)
+		label := fmt.Sprintf("loop%d:%d", n, i+1)
+		if !f.top {
+			label = funcShortName(f.fn) + "." + label
+		}
+		fr.assertOb(st, kind, label, t, head.Instrs[0].Pos(), inv.Text)
 	}
 }
 
